@@ -35,7 +35,12 @@ Preds(e) ==
         LET w == WaitOp(e.who) IN
         /\ \E i \in 1..Len(attempts) : attempts[i][1] = w
         /\ \A i \in 1..IdxOf(w) : (attempts[i][2] /\ attempts[i][4] # "waiter") => attempts[i][1] \in ended),
-   P("C05", "RunsEverythingAccepted", e.ev = "quiesce" /\ e.idle, AcceptedOps \subseteq ended)
+   P("C05", "RunsEverythingAccepted", e.ev = "quiesce" /\ e.idle, AcceptedOps \subseteq ended),
+   \* churn: producers enqueueing as fast as they can on a queue that is never closed; every operation ran
+   \* and nothing is left in the queue
+   P("C05", "ChurnRunsEverything", e.ev = "churn", e.ran = e.total /\ e.qlen = 0),
+   \* ... and "operations waiting, no worker" was never observed under the queue's lock
+   P("C05", "NeverStranded", e.ev = "churn", e.stranded = 0)
   }
 
 Init == /\ pos = 1 /\ viol = {} /\ cnt = EmptyCount
